@@ -11,6 +11,7 @@ and trailing-byte streams, each completed by the usual driver loop, then random 
 -/
 import MinizProof.Gen.All
 import MinizProof.Lemmas.Finite
+import MinizProof.Lemmas.InflStream
 set_option maxRecDepth 1000000
 open Fin'
 namespace C13
@@ -43,5 +44,238 @@ theorem format_from_window_bits (wb : Int) :
 
 theorem error_codes : MZError.Buf = -5 ∧ MZError.Data = -3 ∧ MZError.Stream = -2 ∧ MZError.Param = -10000 ∧
     MZStatus.Ok = 0 ∧ MZStatus.StreamEnd = 1 := by decide +kernel
+
+/-! ### Protocol theorems about the model of `inflate()` (Model/InflStream.lean), for EVERY
+behaviour of the low-level decoder (any script of responses), every buffer size and every call
+history — induction over the loop and over the call sequence. The model is tied to the code by
+replaying the recorded inner `decompress` calls of every real `inflate()` call of the run, with
+the wrapper state before and after (leg K). -/
+open Model.Infl
+
+theorem codes_match_source :
+    tFailedCannotMakeProgress = TINFLStatus.FailedCannotMakeProgress ∧ tFailed = TINFLStatus.Failed ∧
+    tDone = TINFLStatus.Done ∧ tNeedsMoreInput = TINFLStatus.NeedsMoreInput ∧
+    (fFull : Int) = MZFlush.Full ∧ (fFinish : Int) = MZFlush.Finish ∧
+    rOk = MZStatus.Ok ∧ rStreamEnd = MZStatus.StreamEnd ∧ rBuf = MZError.Buf ∧ rData = MZError.Data ∧ rStream = MZError.Stream ∧
+    (flagParseZlib : Int) = Gen.InflCore.TINFL_FLAG_PARSE_ZLIB_HEADER ∧ (flagHasMoreInput : Int) = Gen.InflCore.TINFL_FLAG_HAS_MORE_INPUT ∧
+    (flagNonWrapping : Int) = Gen.InflCore.TINFL_FLAG_USING_NON_WRAPPING_OUTPUT_BUF ∧
+    (flagComputeAdler : Int) = Gen.InflCore.TINFL_FLAG_COMPUTE_ADLER32 ∧ (flagIgnoreAdler : Int) = Gen.InflCore.TINFL_FLAG_IGNORE_ADLER32 ∧
+    (dictSize : Int) = Gen.InflCore.TINFL_LZ_DICT_SIZE := by decide +kernel
+
+/-- Invariant of the wrapper state between calls (holds for a fresh state, preserved by every call). -/
+def Inv2 (s : St) : Prop := s.Inv ∧ (s.firstCall = true → s.dictAvail = 0)
+
+/-- What one call guarantees, whatever the decoder does. -/
+structure CallPost (s : St) (inLen outLen : Nat) (s' : St) (r : Result) : Prop where
+  inv     : Inv2 s'
+  counts  : r.consumed ≤ inLen ∧ r.written ≤ outLen
+  endDone : r.status = rStreamEnd → s'.lastStatus = tDone ∧ s'.dictAvail = 0
+  dataNeg : r.status = rData → s'.lastStatus < 0 ∧ s'.lastStatus ≠ tFailedCannotMakeProgress
+  okProg  : r.status = rOk → 0 < inLen → 0 < outLen → 0 < r.consumed + r.written
+  fmt     : s'.fmt = s.fmt
+
+theorem call_post (s : St) (inLen outLen flush : Nat) (script : List Resp) (s' : St) (r : Result) (cs : List Call)
+    (hinv : Inv2 s) (h : inflate s inLen outLen flush script = .ok s' r cs) : CallPost s inLen outLen s' r := by
+  unfold inflate at h
+  obtain ⟨⟨hofs, hsum⟩, hfirst⟩ := hinv
+  split at h
+  · simp only [Outcome.ok.injEq] at h; obtain ⟨hs, hr, _⟩ := h; subst hs hr
+    exact ⟨⟨⟨hofs, hsum⟩, hfirst⟩, by simp, by simp [rStream, rStreamEnd], by simp [rStream, rData], by simp [rStream, rOk], rfl⟩
+  · simp only at h
+    split at h
+    · simp only [Outcome.ok.injEq] at h; obtain ⟨hs, hr, _⟩ := h; subst hs hr
+      exact ⟨⟨⟨hofs, hsum⟩, by simp⟩, by simp, by simp [rBuf, rStreamEnd], by simp [rBuf, rData], by simp [rBuf, rOk], rfl⟩
+    · rename_i hnf
+      split at h
+      · rename_i hneg
+        simp only [Outcome.ok.injEq] at h; obtain ⟨hs, hr, _⟩ := h; subst hs hr
+        exact ⟨⟨⟨hofs, hsum⟩, by simp⟩, by simp, by simp [rData, rStreamEnd], fun _ => ⟨hneg, hnf⟩, by simp [rData, rOk], rfl⟩
+      · split at h
+        · simp only [Outcome.ok.injEq] at h; obtain ⟨hs, hr, _⟩ := h; subst hs hr
+          exact ⟨⟨⟨hofs, hsum⟩, by simp⟩, by simp, by simp [rStream, rStreamEnd], by simp [rStream, rData], by simp [rStream, rOk], rfl⟩
+        · split at h
+          · -- first call with Finish: one decoder call straight into the caller's buffer
+            rename_i hff
+            have hav0 : s.dictAvail = 0 := hfirst hff.2
+            split at h
+            · simp at h
+            · rename_i x xs
+              split at h
+              · simp at h
+              · rename_i hb
+                split at h
+                · simp only [Outcome.ok.injEq] at h; obtain ⟨hs, hr, _⟩ := h; subst hs hr
+                  exact ⟨⟨⟨hofs, hsum⟩, by simp⟩, ⟨by simp only; omega, by simp only; omega⟩, by simp [rBuf, rStreamEnd], by simp [rBuf, rData], by simp [rBuf, rOk], rfl⟩
+                · rename_i h1
+                  split at h
+                  · rename_i h2
+                    simp only [Outcome.ok.injEq] at h; obtain ⟨hs, hr, _⟩ := h; subst hs hr
+                    exact ⟨⟨⟨hofs, hsum⟩, by simp⟩, ⟨by simp only; omega, by simp only; omega⟩, by simp [rData, rStreamEnd], fun _ => ⟨h2, h1⟩, by simp [rData, rOk], rfl⟩
+                  · split at h
+                    · simp only [Outcome.ok.injEq] at h; obtain ⟨hs, hr, _⟩ := h; subst hs hr
+                      exact ⟨⟨⟨hofs, hsum⟩, by simp⟩, ⟨by simp only; omega, by simp only; omega⟩, by simp [rBuf, rStreamEnd], by simp [rBuf, rData], by simp [rBuf, rOk], rfl⟩
+                    · rename_i h3
+                      simp only [Outcome.ok.injEq] at h; obtain ⟨hs, hr, _⟩ := h; subst hs hr
+                      refine ⟨⟨⟨hofs, hsum⟩, by simp⟩, ⟨by simp only; omega, by simp only; omega⟩, ?_, by simp [rStreamEnd, rData], by simp [rStreamEnd, rOk], rfl⟩
+                      intro _
+                      exact ⟨Decidable.of_not_not h3, hav0⟩
+          · split at h
+            · -- pending bytes from an earlier call are delivered first
+              rename_i hav
+              have hpd := pushDictOut_spec { s with firstCall := false, hasFlushed := s.hasFlushed || flush == fFinish } outLen (by simpa using hsum)
+              generalize hp : pushDictOut { s with firstCall := false, hasFlushed := s.hasFlushed || flush == fFinish } outLen = p at h hpd
+              obtain ⟨n, s2⟩ := p
+              simp only at h hpd
+              obtain ⟨hn1, hn2, hav2, ho, hinv2, hls, hfmt, hfl, hfc, hfull⟩ := hpd
+              simp only [Outcome.ok.injEq] at h; obtain ⟨hs, hr, _⟩ := h; subst hs hr
+              refine ⟨⟨⟨ho, hinv2⟩, by rw [hfc]; simp⟩, ⟨by simp, by simpa using hn1⟩, ?_, ?_, ?_, hfmt⟩
+              · simp only; split
+                · rename_i hd; intro _; exact hd
+                · simp [rOk, rStreamEnd]
+              · simp only; split <;> simp [rOk, rStreamEnd, rData]
+              · intro _ _ hout
+                simp only
+                have : 0 < n := by
+                  by_cases hz : s2.dictAvail = 0
+                  · omega
+                  · have := hfull hz; omega
+                omega
+            · have hp := loop_post flush _ inLen script { s with firstCall := false, hasFlushed := s.hasFlushed || flush == fFinish } inLen outLen 0 0 [] s' r cs (by simpa using hofs) h
+              refine ⟨⟨hp.inv, by rw [hp.same.2.2]; simp⟩, ⟨by have := hp.cHi; omega, by have := hp.wHi; omega⟩, hp.endDone, hp.dataNeg, ?_, hp.same.1⟩
+              intro hk hi ho
+              rcases hp.okProg hk with h1 | h1 <;> omega
+
+theorem fresh_inv (fmt : Nat) : Inv2 (St.fresh fmt) := by
+  unfold Inv2 St.Inv St.fresh dictSize; simp
+
+/-- A full-flush request is a stream error and changes nothing. -/
+theorem full_flush_is_stream_error (s : St) (inLen outLen : Nat) (script : List Resp) :
+    inflate s inLen outLen fFull script = .ok s ⟨0, 0, rStream⟩ [] := by
+  simp [inflate]
+
+/-- A failed stream stays failed: with a data-error status recorded, every later call (other than
+    the refused full flush) reports a data error, moves nothing, calls the decoder no more and
+    keeps the status. -/
+theorem data_error_sticky_step (s : St) (inLen outLen flush : Nat) (script : List Resp)
+    (hneg : s.lastStatus < 0) (hne : s.lastStatus ≠ tFailedCannotMakeProgress) (hfl : flush ≠ fFull) :
+    inflate s inLen outLen flush script = .ok { s with firstCall := false } ⟨0, 0, rData⟩ [] := by
+  unfold inflate
+  simp [hfl, hne, hneg]
+
+/-- A finish request on input that ended early (the decoder answered cannot-make-progress) is a
+    buffer error for good: every later call answers a buffer error without calling the decoder. -/
+theorem cannot_progress_sticky_step (s : St) (inLen outLen flush : Nat) (script : List Resp)
+    (h : s.lastStatus = tFailedCannotMakeProgress) (hfl : flush ≠ fFull) :
+    inflate s inLen outLen flush script = .ok { s with firstCall := false } ⟨0, 0, rBuf⟩ [] := by
+  unfold inflate
+  simp [hfl, h]
+
+/-- A sequence of calls, each with its own decoder script. -/
+structure Req where
+  inLen  : Nat
+  outLen : Nat
+  flush  : Nat
+  script : List Resp
+
+def runCalls : St → List Req → Option (St × List Result)
+  | s, [] => some (s, [])
+  | s, q :: qs =>
+    match inflate s q.inLen q.outLen q.flush q.script with
+    | .ok s' r _ => (runCalls s' qs).map (fun p => (p.1, r :: p.2))
+    | _ => none
+
+/-- Every reachable state satisfies the invariant and every call of every history keeps its
+    counts within the offered buffers — induction over the call sequence. -/
+theorem history_counts_bounded : ∀ (reqs : List Req) (s sf : St) (rs : List Result),
+    Inv2 s → runCalls s reqs = some (sf, rs) →
+    Inv2 sf ∧ rs.length = reqs.length ∧
+    ∀ i (h1 : i < reqs.length) (h2 : i < rs.length), rs[i].consumed ≤ reqs[i].inLen ∧ rs[i].written ≤ reqs[i].outLen := by
+  intro reqs
+  induction reqs with
+  | nil => intro s sf rs hi h; simp [runCalls] at h; obtain ⟨h1, h2⟩ := h; subst h1 h2; exact ⟨hi, rfl, by intro i h1; simp at h1⟩
+  | cons q qs ih =>
+    intro s sf rs hi h
+    unfold runCalls at h
+    split at h
+    · rename_i s' r cs heq
+      have hp := call_post s q.inLen q.outLen q.flush q.script s' r cs hi heq
+      cases hrec : runCalls s' qs with
+      | none => simp [hrec] at h
+      | some p =>
+        simp only [hrec, Option.map_some, Option.some.injEq, Prod.mk.injEq] at h
+        obtain ⟨h1, h2⟩ := h
+        have := ih s' p.1 p.2 hp.inv (by rw [hrec])
+        subst h1 h2
+        refine ⟨this.1, by simp [this.2.1], ?_⟩
+        intro i h1 h2
+        cases i with
+        | zero => simpa using hp.counts
+        | succ j => simpa using this.2.2 j (by simpa using h1) (by simpa using h2)
+    · simp at h
+
+/-- Data errors are sticky over whole histories: once the recorded status is a data error, every
+    later result is a data error (or the stream error of a refused full flush), with nothing moved. -/
+theorem data_error_sticky : ∀ (reqs : List Req) (s sf : St) (rs : List Result),
+    s.lastStatus < 0 → s.lastStatus ≠ tFailedCannotMakeProgress → runCalls s reqs = some (sf, rs) →
+    ∀ r ∈ rs, (r.status = rData ∨ r.status = rStream) ∧ r.consumed = 0 ∧ r.written = 0 := by
+  intro reqs
+  induction reqs with
+  | nil => intro s sf rs _ _ h; simp [runCalls] at h; intro r hr; rw [h.2] at hr; simp at hr
+  | cons q qs ih =>
+    intro s sf rs hneg hne h
+    unfold runCalls at h
+    by_cases hfl : q.flush = fFull
+    · rw [hfl, full_flush_is_stream_error] at h
+      simp only at h
+      cases hrec : runCalls s qs with
+      | none => simp [hrec] at h
+      | some p =>
+        simp only [hrec, Option.map_some, Option.some.injEq, Prod.mk.injEq] at h
+        obtain ⟨_, h2⟩ := h
+        intro r hr
+        rw [← h2] at hr
+        cases hr with
+        | head => simp
+        | tail _ hm => exact ih s p.1 p.2 hneg hne (by rw [hrec]) r hm
+    · rw [data_error_sticky_step s q.inLen q.outLen q.flush q.script hneg hne hfl] at h
+      simp only at h
+      cases hrec : runCalls { s with firstCall := false } qs with
+      | none => simp [hrec] at h
+      | some p =>
+        simp only [hrec, Option.map_some, Option.some.injEq, Prod.mk.injEq] at h
+        obtain ⟨_, h2⟩ := h
+        intro r hr
+        rw [← h2] at hr
+        cases hr with
+        | head => simp
+        | tail _ hm => exact ih { s with firstCall := false } p.1 p.2 hneg hne (by rw [hrec]) r hm
+
+/-- Stream end is stable: once it has been reported (status Done recorded, nothing pending) and
+    the decoder keeps answering Done with nothing moved (C05: a finished decoder stays finished),
+    every later call with a legal flush reports stream end again with nothing consumed or written. -/
+theorem stream_end_stable (s : St) (inLen outLen flush : Nat) (rest : List Resp)
+    (hd : s.lastStatus = tDone) (ha : s.dictAvail = 0) (hfc : s.firstCall = false)
+    (hfl : flush ≠ fFull) (hlegal : s.hasFlushed = true → flush = fFinish) (hofs : s.dictOfs < dictSize) :
+    ∃ s' cs, inflate s inLen outLen flush (⟨tDone, 0, 0⟩ :: rest) = .ok s' ⟨0, 0, rStreamEnd⟩ cs ∧
+      s'.lastStatus = tDone ∧ s'.dictAvail = 0 := by
+  unfold inflate
+  have h1 : ¬ (tDone = tFailedCannotMakeProgress) := by decide
+  have h2 : ¬ (tDone < (0:Int)) := by decide
+  simp only [hfl, ↓reduceIte, hd, h1, h2, hfc, Bool.false_eq_true, and_false]
+  by_cases hhf : s.hasFlushed = true
+  · have hf := hlegal hhf
+    subst hf
+    simp [hhf, ha, loop, pushDictOut, tDone, tFailedCannotMakeProgress, tNeedsMoreInput, dictSize]
+  · simp only [Bool.not_eq_true] at hhf
+    by_cases hfin : flush = fFinish
+    · subst hfin
+      simp [hhf, ha, loop, pushDictOut, tDone, tFailedCannotMakeProgress, tNeedsMoreInput, dictSize]
+    · simp [hhf, hfin, ha, loop, pushDictOut, tDone, tFailedCannotMakeProgress, tNeedsMoreInput, dictSize]
+
+-- non-vacuity: a fresh raw-format state, a decoder that delivers 5 bytes and finishes
+example : inflate (St.fresh 2) 10 100 0 [⟨tDone, 7, 5⟩] =
+    .ok { dictOfs := 5, dictAvail := 0, firstCall := false, hasFlushed := false, lastStatus := tDone, fmt := 2 }
+        ⟨7, 5, rStreamEnd⟩ [(10, 0, dictSize, flagIgnoreAdler + flagHasMoreInput)] := by decide
+example : Inv2 (St.fresh 0) := fresh_inv 0
 
 end C13
